@@ -1972,6 +1972,28 @@ def c15(ctx):
                         a, b = ctx.rng.choice([(0, other), (other, 0)])
                         ops.append(('cmp', a, i, False, b, j, False))
             cases.append((name, ops)); note_case(res, name, ops)
+    # encoded versus encoded WITHIN one container: the same symbol sequence stored at several positions -- byte-aligned
+    # and not, with bit lengths that are and are not multiples of 8 -- each followed by different neighbours; equal items
+    # must compare equal whatever bits follow them in the shared last byte (2-bit, 3-bit and mixed code lengths)
+    for name, e in pick_entries(lambda nm, e: e[0] == 'huf'):
+        for syms, train in (([0, 1, 2, 3], [0, 1, 2, 3] * 4), ([0, 1, 2, 3, 4, 5, 6, 7], list(range(8)) * 2), ([0, 1, 2, 3], [0] * 8 + [1] * 4 + [2] * 2 + [3] * 2)):
+            items = [[syms[0], syms[1], syms[2], syms[3], syms[0]], [syms[2]], [], [syms[3], syms[3], syms[1]]]
+            fillers = [[syms[1]] * k for k in (1, 2, 3, 4, 5, 7)] + [[syms[2]] * k for k in (1, 3, 4, 6)]
+            ops = [('push', 2, 0, train), ('merge', 1, [2])]
+            pos = {}   # item number -> list of log positions in slot 1
+            nlog = 0
+            for rep in range(3):
+                for k, it in enumerate(items):
+                    ops.append(('push', 1, 0, it)); pos.setdefault(k, []).append(nlog); nlog += 1
+                    ops.append(('push', 1, 0, fillers[(rep * len(items) + k) % len(fillers)])); nlog += 1
+            for k, ps in pos.items():
+                for i in ps:
+                    for j in ps:
+                        ops.append(('cmp', 1, i, False, 1, j, False))
+            for k in pos:
+                for l in pos:
+                    if k != l: ops.append(('cmp', 1, pos[k][0], False, 1, pos[l][-1], False))
+            cases.append((name, ops)); note_case(res, name, ops)
     def clause_for(e):
         def clause(t, op, g, ref, sc):
             if op[0] != 'cmp' or not g or not g[0].startswith('v='): return None
